@@ -467,9 +467,14 @@ Section Crypto.
       else is_prefix [33] room && room_id_valid room && (rune_count room <=? max_id_length)
     else check_id_parse 33 room && room_id_valid room.
 
+  (* EventIDRaw after decoding: the event_id member in event format 1; in the hash-derived
+     formats the parsers and Redact() clear it (repair of F65), the JSON is never believed *)
+  Definition json_event_id (class : N) (j : json) : bytes :=
+    if class =? 1 then or_empty (dec_str (bs "event_id") j) else [].
+
   Definition mk_parsed (ver : bytes) (class : N) (j : json) (redacted : bool) (id : option bytes) : ev :=
     mkEv ver class j redacted
-         (match id with Some i => i | None => or_empty (dec_str (bs "event_id") j) end).
+         (match id with Some i => i | None => json_event_id class j end).
 
   (* newEventFromTrustedJSONV*, newEventFromTrustedJSONWithEventIDV* *)
   Definition parse_trusted_as (class : N) (ver : bytes) (j : json) (redacted : bool) (id : option bytes)
@@ -607,7 +612,7 @@ Section Crypto.
   Definition redact_ev (e : ev) : option ev :=
     if e_redacted e then Some e
     else match redact (e_ver e) (e_json e) with
-         | Some r => Some (mkEv (e_ver e) (e_class e) r true (or_empty (dec_str (bs "event_id") r)))
+         | Some r => Some (mkEv (e_ver e) (e_class e) r true (json_event_id (e_class e) r))
          | None => None
          end.
 
